@@ -1,7 +1,10 @@
 (* C15 MODEL (definitions only): pkg/datamodeldiagram/datamodelview.go
      UniqueVarForAppName, getNames, DrawRelation, DrawPrimitive, DrawTuple, DrawEnum (header and item lines),
      DrawRelationship, GenerateDataView
-   transliterated statement by statement, parameterised by the shape table Gen/DmShape.v.
+   transliterated statement by statement, parameterised by the shape table Gen/DmShape.v.  Since the second pass of
+   round 3 the model follows the code as repaired by fixes/C15-3 ... C15-9 (entityApps / viewApps, EntityViewParam.EntityApp,
+   collectionOf, addRelationship, whole-path type names); the alternatives of the unrepaired code stay under their
+   shape constructors (TargetAppPath, RelAppFirstToken, ViewAppEq).
 
    Representation of Go strings.  The code handles names only by strings.Split(s, "."),
    strings.Join(parts, "."), `a + "." + b`, equality / map lookup.  A Go string is therefore modelled
@@ -145,9 +148,26 @@ Definition get_names (e:ety) : str * list str * lname * bool :=
   end.
 
 (* ---------- DrawRelation ---------- *)
-(* entityApp := strings.Split(viewParam.EntityName, ".")[0] : the FIRST CHUNK of the name, which is the
-   application only when the application name has no '.' *)
-Definition entity_app (e:entity) : str := [hd eps (e_key e)].
+(* entityApp: viewParam.EntityApp = entityApps[entityName], the application the table belongs to (fix C15-4); before,
+   strings.Split(viewParam.EntityName, ".")[0] : the FIRST CHUNK of the name, which is the application only when the
+   application name has no '.' *)
+Definition entity_app (ra:relapp) (e:entity) : str :=
+  match ra with RelAppParam => e_app e | _ => [hd eps (e_key e)] end.
+
+(* the `if _, mulRelation := ...` statement with the counts of the current source: Count 1, then Count + 1
+   (DrawRelation / DrawTuple inline, shape table) and the helper addRelationship (fix C15-8, text table) *)
+Definition add_relationship (r:relmap) (k:nat*nat) (c:card) : relmap := bump (CountConst 1) (CountInc 1) r k c.
+
+(* collectionOf + the column line of a set / sequence / list column (fixes C15-5, C15-8): listed like the same field of
+   a tuple, related to the type of its elements when `appName.JoinTypePath(path)` is a type of the model *)
+Definition draw_rel_coll (tm:list entity) (enc:nat) (s:st) (fname:positive) (k:ckind)
+           (gn:str * list str * lname * bool) : st * list item :=
+  let '(app, path, lab, isprim) := gn in
+  let tn := join path in
+  if negb isprim && has_type tm (app ++ tn)
+  then let '(sy, tgt) := uvar (syms s) [app; tn] in
+       ({| syms := sy; rel := add_relationship (rel s) (enc, tgt) CMany |}, [IField fname (LColl k lab)])
+  else (s, [IField fname (LColl k lab)]).
 
 Definition draw_rel_field (sh:shape) (tm:list entity) (eapp:str) (enc:nat) (s:st) (f:positive * fty)
   : outcome (st * list item) :=
@@ -156,16 +176,21 @@ Definition draw_rel_field (sh:shape) (tm:list entity) (eapp:str) (enc:nat) (s:st
       match r_path r with
       | p0 :: p1 :: _ =>
           let tapp := match r_app r with Some a => a | None => eapp end in
+          (* targetTable := JoinTypePath(path[:len(path)-1]), column path[len(path)-1] (fix C15-7); before: Path[0], Path[1] *)
+          let '(table, col) := match sh_rel_target sh with
+                               | TargetAppTable => (join (removelast (r_path r)), last (r_path r) empty_str)
+                               | _ => (p0, p1)
+                               end in
           let tparts := match sh_rel_target sh with
-                        | TargetAppPath => [tapp; p0]
-                        | _ => [p0]
+                        | TargetAppTable | TargetAppPath => [tapp; table]
+                        | _ => [table]
                         end in
-          if sh_rel_checks_target sh && negb (has_type tm (tapp ++ p0))
-          then Ok (s, [IField (fst f) (LFK (p0 ++ p1))])
+          if sh_rel_checks_target sh && negb (has_type tm (tapp ++ table))
+          then Ok (s, [IField (fst f) (LFK (table ++ col))])
           else
           let '(sy, tgt) := uvar (syms s) tparts in
           Ok ({| syms := sy; rel := bump (sh_rel_count_new sh) (sh_rel_count_again sh) (rel s) (enc, tgt) CBlank |},
-              [IField (fst f) (LFK (p0 ++ p1))])
+              [IField (fst f) (LFK (table ++ col))])
       | short =>
           if sh_rel_guards_short_path sh
           then (* len(Path) < 2: "+ f : **<Appname.Part and Path joined by '.'>**", no relation *)
@@ -173,7 +198,10 @@ Definition draw_rel_field (sh:shape) (tm:list entity) (eapp:str) (enc:nat) (s:st
           else Panic 1           (* Path[0] / Path[1] : index out of range *)
       end
   | FPrim p => Ok (s, [IField (fst f) (LPrim p)])
-  | _ => Ok (s, [IField (fst f) (LPrim 0)])      (* strings.ToLower(NO_Primitive.String()) *)
+  | FList e => Ok (draw_rel_coll tm enc s (fst f) KList (get_names e))
+  | FSet e => Ok (draw_rel_coll tm enc s (fst f) KSet (get_names e))
+  | FSeq e => Ok (draw_rel_coll tm enc s (fst f) KSeq (get_names e))
+  | FOther => Ok (s, [IField (fst f) (LPrim 0)])      (* strings.ToLower(NO_Primitive.String()) *)
   end.
 
 Fixpoint draw_rel_fields (sh:shape) (tm:list entity) (eapp:str) (enc:nat) (s:st) (fs:fields) : outcome (st * list item) :=
@@ -192,7 +220,7 @@ Fixpoint draw_rel_fields (sh:shape) (tm:list entity) (eapp:str) (enc:nat) (s:st)
 
 Definition draw_relation (sh:shape) (tm:list entity) (s:st) (e:entity) (fs:fields) : outcome (st * list item) :=
   let '(sy, enc) := uvar (syms s) (enc_parts (sh_rel_key sh) e) in
-  match draw_rel_fields sh tm (entity_app e) enc {| syms := sy; rel := rel s |} fs with
+  match draw_rel_fields sh tm (entity_app (sh_rel_app sh) e) enc {| syms := sy; rel := rel s |} fs with
   | Panic n => Panic n
   | Ok (s', o) => Ok (s', IClass enc (e_key e) HClass :: o ++ [IEnd])
   end.
@@ -221,20 +249,18 @@ Definition draw_enum (sh:shape) (s:st) (e:entity) (items:list (positive * Z)) : 
 Definition tuple_relate (sh:shape) (tm:list entity) (enc:nat) (s:st) (fname:positive) (lab:flabel)
            (app:str) (path:list str) (isprim:bool) (c:card) : outcome (st * list item) :=
   if isprim then Ok (s, [IField fname lab])
-  else match path with
-       | [] => Panic 3                                  (* typeName := path[0] *)
-       | p0 :: rest =>
-           let '(appn, tn) := match rest with
-                              | [] => (app, p0)
-                              | p1 :: _ => (p0, p1)     (* appName = path[0]; typeName = path[1] *)
-                              end in
-           if negb (has_type tm (appn ++ tn)) && negb (has_type tm tn)
-           then Ok (s, [IField fname lab])
-           else
-             let '(sy, tgt) := uvar (syms s) [appn; tn] in
-             Ok ({| syms := sy; rel := bump (sh_tuple_count_new sh) (sh_tuple_count_again sh) (rel s) (enc, tgt) c |},
-                 [IField fname lab])
-       end.
+  else
+    (* typeName := JoinTypePath(path): the whole path names the type (fix C15-7; before: application path[0], type
+       path[1] for a path of several elements, and a panic on the empty path);
+       Types[appName.typeName] == nil && (appName != "" || Types[typeName] == nil) -> no relationship (fix C15-6;
+       before, the bare lookup counted with any application) *)
+    let tn := join path in
+    if negb (has_type tm (app ++ tn)) && (negb (is_empty_str app) || negb (has_type tm tn))
+    then Ok (s, [IField fname lab])
+    else
+      let '(sy, tgt) := uvar (syms s) [app; tn] in
+      Ok ({| syms := sy; rel := bump (sh_tuple_count_new sh) (sh_tuple_count_again sh) (rel s) (enc, tgt) c |},
+          [IField fname lab]).
 
 Definition draw_tuple_field (sh:shape) (tm:list entity) (ign:list str) (enc:nat) (s:st) (f:positive * fty)
   : outcome (st * list item) :=
@@ -325,14 +351,16 @@ Definition kind_matches (k:dkind) (d:tdef) : bool :=
   | _, _ => false
   end.
 
-(* the per-application view keeps an entity iff this holds (filt = Some app : dataParam.Epname, app = JoinAppName(dataParam.App.Name)) *)
-Definition in_view (vt:viewtest) (filt:option str) (e:entity) : bool :=
+(* the per-application view keeps an entity iff this holds.  filt = Some apps : dataParam.Epname, apps = the keys of
+   viewApps = JoinAppName of dataParam.Apps, or of dataParam.App alone when Apps is empty (DmWrap.view_of) *)
+Definition in_view (vt:viewtest) (filt:option (list str)) (e:entity) : bool :=
   match filt with
   | None => true
-  | Some a => match vt with
-              | ViewAppEq => str_eqb [hd eps (e_key e)] a     (* strings.Split(entityName, ".")[0] == appName *)
-              | UnknownView => true
-              end
+  | Some apps => match vt with
+                 | ViewAppsMember => existsb (str_eqb (e_app e)) apps          (* viewApps[entityApps[entityName]] *)
+                 | ViewAppEq => existsb (str_eqb [hd eps (e_key e)]) apps      (* (before C15-3) strings.Split(entityName, ".")[0] == appName *)
+                 | UnknownView => true
+                 end
   end.
 
 (* one entity through the if / else-if chain (branches in the order of the source) *)
@@ -350,7 +378,7 @@ Definition draw_entity (sh:shape) (tm:list entity) (ign:list str) (s:st) (isrel:
       end
   end.
 
-Fixpoint draw_entities (sh:shape) (filt:option str) (tm:list entity) (ign:list str) (s:st) (isrel:bool)
+Fixpoint draw_entities (sh:shape) (filt:option (list str)) (tm:list entity) (ign:list str) (s:st) (isrel:bool)
          (es:list entity) : outcome (st * bool * list item) :=
   match es with
   | [] => Ok (s, isrel, [])
@@ -368,9 +396,9 @@ Fixpoint draw_entities (sh:shape) (filt:option str) (tm:list entity) (ign:list s
 
 Definition init_st : st := {| syms := []; rel := [] |}.
 
-(* filt = Some app : dataParam.Epname with dataParam.App = app; es = every type of every application,
+(* filt = Some apps : dataParam.Epname restricted to the applications apps; es = every type of every application,
    in sort.Strings order of App.Type *)
-Definition draw_with (sh:shape) (filt:option str) (es:list entity) : outcome (list item) :=
+Definition draw_with (sh:shape) (filt:option (list str)) (es:list entity) : outcome (list item) :=
   let tm := type_map es in
   match draw_entities sh filt tm (ignored es) init_st false tm with
   | Panic n => Panic n
